@@ -3,7 +3,7 @@ from harness import wire as W
 
 RULE = ("timestamp pairs around the 2^32 wrap, backward steps 1..10^6, ticks 0..10, elapsed ms around min wait / grace / max wait, "
         "tick counts aimed at frequencies straddling min/max scale and every rounding-bucket edge (with fractional parts), all packet "
-        "types incl. invalid ones and fragments, threshold variants; clock via replaced time.time_ns; non-trivial = model gives a "
+        "types incl. invalid ones and fragments (a fifth of them through ONE reused parsed Packet object whose fragment bit / type were updated since its last use), threshold variants; clock via replaced time.time_ns; non-trivial = model gives a "
         "verdict or tps=-1; raw_frequency compared bit-for-bit with the correctly rounded num/den")
 GEN_TIE = ['uptime']     # the anchored decision functions are also TRANSLATED from /repo's source on every run and proved equal to the model
 ASSUMPTIONS = ["thresholds are sane: 0 < min scale <= max scale, min wait >= 1, grace > 0",
@@ -87,6 +87,7 @@ def impl_init():
     time.time_ns = lambda: clock["ns"]
     from pyp0f.exceptions import PacketError
     from pyp0f.fingerprint import fingerprint_uptime
+    from pyp0f.net.layers.tcp import TCPFlag
     from pyp0f.net.packet import parse_packet
     from pyp0f.net.signatures import TCPPacketSignature
     from pyp0f.options import Options
@@ -102,6 +103,20 @@ def impl_init():
         last = TCPPacketSignature.from_packet(parse_packet(lastp))
         clock["ns"] += c["ms"] * 1_000_000
         pkt = U.scapy_from_spec(spec_of(c["flags"], c["ts"], c["has_ts"], c["frag"]))
+        if (c["ts"] + c["ms"] + c["flags"]) % 5 == 0:
+            # the caller keeps ONE parsed Packet (plain mutable dataclasses), has used it before while it described another packet
+            # (fragment bit / flags), and has updated it since: the verdict follows what it says now
+            try:
+                pk = parse_packet(U.scapy_from_spec(spec_of([2, 0x12, 0x10, 0x11, 0x04][c["ms"] % 5], c["ts"], c["has_ts"], not c["frag"])))
+                try:
+                    fingerprint_uptime(pk, last)
+                except PacketError:
+                    pass
+                pk.ip.is_fragment = bool(c["frag"])
+                pk.tcp.type = TCPFlag(c["flags"] & 0x17)
+                pkt = pk
+            except PacketError:
+                pass
         try:
             with U.options_as(c["ts"] + c["ms"], **vals) as kw:
                 r = fingerprint_uptime(pkt, last, **kw)
